@@ -10,8 +10,9 @@ import props.c08 as C8
 ID = "C15"
 RULE = ("Schemas from specs (SDL-built and code-built with internal enum values and python names; defaults of enum, "
         "string with quotes / backslashes / newlines, list, input-object, float and null type; deprecated fields and enum "
-        "values with and without reason; custom directives with arguments), queried with the standard introspection "
-        "query and ad-hoc __type queries with includeDeprecated absent / false / true, in the blocking configuration "
+        "values with and without reason; custom directives with arguments and drawn subsets of all 19 locations), queried "
+        "with the standard introspection query, ad-hoc __type queries with includeDeprecated absent / false / true and "
+        "__type of a name the schema does not have (null, no error), in the blocking configuration "
         "(quick) and all configurations of C08 (thorough), with disable_introspection on/off. Oracle: the decoded "
         "introspection result (kinds, names, descriptions, fields / args / input fields in order, wrappers via ofType, "
         "enum values, interfaces, possible types as sets, directives with locations and args, roots, deprecation flags "
